@@ -44,10 +44,11 @@ func c06Universe(rnd *rand.Rand, zones uint64) []c06Key {
 }
 
 func c06(r *hx.Run) {
-	r.Rule = "universe of 96 near-identical keys (paths differing by a slash/digit/case/escape, queries differing in one byte or only by '?', three hosts, GET vs HEAD, 1.8 kB URIs differing in the last byte) plus 60 keys pre-selected with MemHash to share one shard; caches of size 8, 24 and 64 (constant eviction and re-creation); 32 concurrent clients with hot/cold mix; every 2xx response must echo exactly the requester's method, Host and request-URI (body identification line and echo headers written by the origin). Plus a dispatcher-level run over one million generated keys checking entry identity. Non-trivial/distinct = distinct key that was answered at least once after having been evicted."
+	r.Rule = "universe of 96 near-identical keys (paths differing by a slash/digit/case/escape, queries differing in one byte or only by '?', three hosts, GET vs HEAD, 1.8 kB URIs differing in the last byte) plus 60 keys pre-selected with MemHash to share one shard; caches of size 8, 24 and 64 plus one of size 16 backed by a store (constant eviction, re-creation and reload from the store); 32 concurrent clients with hot/cold mix; every 2xx response must echo exactly the requester's method, Host and request-URI (body identification line and echo headers written by the origin). Plus a dispatcher-level run over one million generated keys checking entry identity. Non-trivial/distinct = distinct key that was answered at least once after having been evicted."
 	r.Assume = []string{"-race build (implies checkptr for the zero-copy key string)", "the origin echoes what it saw; a mismatch between echo and request can only come from pike serving another key's entry"}
 	rnd := rand.New(rand.NewSource(r.Seed))
-	sizes := []int{8, 24, 64}
+	sizes := []int{8, 24, 64, 16}
+	storeIdx := 3 // the last cache is backed by a store: evicted entries come back through it
 	ports := hx.FreePorts(len(sizes))
 	w := newWorldCfg(r, 1, false, func(origins []string) *config.PikeConfig {
 		cfg := &config.PikeConfig{
@@ -56,7 +57,14 @@ func c06(r *hx.Run) {
 		}
 		for i, s := range sizes {
 			name := fmt.Sprintf("c06_%d", s)
-			cfg.Caches = append(cfg.Caches, config.CacheConfig{Name: name, Size: s, HitForPass: "5m"})
+			cc := config.CacheConfig{Name: name, Size: s, HitForPass: "5m"}
+			if i == storeIdx {
+				cc.Name = "c06_store"
+				name = cc.Name
+				cc.Store = fmt.Sprintf("mem://c06/%d", r.Seed)
+				hx.NewMemStore(cc.Store).NoLog = true
+			}
+			cfg.Caches = append(cfg.Caches, cc)
 			cfg.Servers = append(cfg.Servers, config.ServerConfig{Addr: srvAddr(ports[i]), Locations: []string{"l"}, Cache: name})
 		}
 		return cfg
@@ -69,8 +77,13 @@ func c06(r *hx.Run) {
 	keys := c06Universe(rnd, 8)
 	var evictions atomic.Int64
 	evictedOnce := sync.Map{}
-	for _, s := range sizes {
-		d := cache.GetDispatcher(fmt.Sprintf("c06_%d", s))
+	for i, s := range sizes {
+		name := fmt.Sprintf("c06_%d", s)
+		if i == storeIdx {
+			name = "c06_store"
+		}
+		d := cache.GetDispatcher(name)
+		s := s
 		d.VerifOnEvicted(func(shard int, key string) {
 			evictions.Add(1)
 			evictedOnce.Store(fmt.Sprintf("%d|%s", s, key), true)
